@@ -3,6 +3,7 @@
    the code before the fix commits recorded in known_findings.json. *)
 From Coq Require Import Lia.
 From RM Require Import C08.Model C08.Proofs C03.Model C03.Proofs C03.ArgModel C03.ArgProofs C03.Compose.
+From RM Require Import C03.FetchModel C03.FetchProofs.
 From RM Require C11.Model C11.Proofs2 C11.Proofs5.
 From RM Require C05.Model C05.Proofs.
 Open Scope Z_scope.
@@ -232,3 +233,65 @@ Example c03_nonvacuous_args :
   parse_x86_arg_list Debug [87;58;58;112;40;105;110;116;44;32;109;60;75;44;32;86;62;41;160;99] =
   Ret (Some (WindowsThisCall, [[105;110;116]; [109;60;75;44;32;86;62]])).
 Proof. vm_compute. reflexivity. Qed.
+
+(* ==================================================================== round 4 *)
+(* ---- op_analysis::get_thread_instruction_bytes: for every list of memory regions the two stream readers can build
+   (size = length of the byte slice) and every instruction pointer, in both profiles, the fetch answers "no memory
+   there" or returns the bytes from the instruction pointer to the end of ONE region of the list: at least one byte,
+   exactly base + size - ip of them, and neither the subtraction nor the slice can trap. *)
+Theorem c03_instr_fetch_total : forall p rs ip, wf_regions rs -> 0 <= ip < two64 ->
+  fetch_instruction_bytes p rs ip = Ret None \/
+  exists m, In m rs /\ r_base m <= ip /\
+    fetch_instruction_bytes p rs ip = Ret (Some (skipn (Z.to_nat (ip - r_base m)) (r_bytes m))) /\
+    Z.of_nat (length (skipn (Z.to_nat (ip - r_base m)) (r_bytes m))) = r_base m + r_size m - ip /\
+    1 <= r_base m + r_size m - ip.
+Proof. exact fetch_total. Qed.
+Print Assumptions c03_instr_fetch_total.
+
+(* the lookup the fetch relies on: memory_at_address returns a region of the list that contains the address *)
+Theorem c03_memory_at_sound : forall rs x m, wf_regions rs -> memory_at rs x = Some m ->
+  In m rs /\ r_base m <= x /\ x <= r_base m + r_size m - 1 /\ r_base m + r_size m <= two64.
+Proof. exact memory_at_sound. Qed.
+Print Assumptions c03_memory_at_sound.
+
+Example c03_nonvacuous_fetch : wf_regions stitch_witness /\
+  fetch_instruction_bytes Debug stitch_witness 4194304 = Ret (Some [72; 139]).
+Proof. split; [exact stitch_witness_wf|exact (fetch_on_stitch_witness Debug)]. Qed.
+
+(* seeded/C03-4 (completing a cut-off instruction from the following region without looking at its length):
+   the variant panics on a well-formed two-region layout, in both profiles — the model expresses that class *)
+Theorem c03_instr_fetch_stitch_refuted : forall p, exists rs ip, wf_regions rs /\ 0 <= ip < two64 /\
+  fetch_instruction_bytes_stitched p rs ip = Panic PANIC_INDEX.
+Proof.
+  intros p. exists stitch_witness, 4194304.
+  split; [exact stitch_witness_wf|]. split; [unfold two64; lia|exact (stitch_panics p)].
+Qed.
+Print Assumptions c03_instr_fetch_stitch_refuted.
+
+(* ---- fill_symbol's inline-level enumeration (`for depth in 1..`, stop at the first level without a covering record):
+   whatever the INLINE records of the function are (any depths, gaps, duplicates), the loop performs at most
+   |records| + 1 lookups (fuel S |records| suffices, no OutOfFuel), the u32 level counter cannot overflow, and the
+   frame gets at most |records| inline levels — the work per frame is tied to the size of the symbol file.
+   [look_sound] is what get_inlinee_at_depth guarantees (a record of the function, of the depth asked for; the binary
+   search itself is C11's model); [look_linear] is an instance. *)
+Theorem c03_inline_levels_bound : forall p recs look,
+  look_sound recs look -> Z.of_nat (length recs) + 2 < two32 ->
+  exists l, inline_loop p (S (length recs)) look 1 [] = Ret l /\ (length l <= length recs)%nat.
+Proof. exact inline_levels_bound. Qed.
+Print Assumptions c03_inline_levels_bound.
+
+Example c03_nonvacuous_inline_levels : look_sound depth_gap_witness (look_linear depth_gap_witness 4) /\
+  inline_loop Debug (S (length depth_gap_witness)) (look_linear depth_gap_witness 4) 1 [] = Ret [].
+Proof. split; [apply look_linear_sound|vm_compute; reflexivity]. Qed.
+
+(* seeded/C03-3 (enumerating up to the largest recorded depth): no fuel below that depth suffices, whatever the
+   lookup returns; with two records the |records| + 1 budget is exceeded *)
+Theorem c03_inline_maxdepth_refuted :
+  (forall look (fuel : nat) maxd acc, Z.of_nat fuel <= maxd -> inline_loop_maxdepth fuel look maxd 1 acc = OutOfFuel) /\
+  inline_loop_maxdepth (S (length depth_gap_witness)) (look_linear depth_gap_witness 4)
+                       (max_depth_of depth_gap_witness) 1 [] = OutOfFuel.
+Proof.
+  split; [|exact maxdepth_out_of_fuel].
+  intros look fuel maxd acc H. apply maxdepth_needs_depth_many_steps. lia.
+Qed.
+Print Assumptions c03_inline_maxdepth_refuted.
